@@ -108,3 +108,36 @@ Print Assumptions decode_encode.
 Eval vm_compute in encode [77; 97].
 Eval vm_compute in encode [77; 97; 110].
 Eval vm_compute in decode (encode [0; 255; 254; 1; 2]).
+
+(* RawURLEncoding: the output is drawn from the URL-safe alphabet only (A-Z a-z 0-9 - _; so no '=' padding, no '+', no '/'),
+   and its length is ceil(4n/3) — for every list of N, a byte string or not *)
+Definition url_char (c : N) : bool :=
+  ((65 <=? c) && (c <=? 90)) || ((97 <=? c) && (c <=? 122)) || ((48 <=? c) && (c <=? 57)) || (c =? 45) || (c =? 95).
+
+Lemma alpha_url_char i : url_char (alpha i) = true.
+Proof.
+  unfold alpha, url_char.
+  destruct (i <? 26) eqn:E1; [lia|]. destruct (i <? 52) eqn:E2; [lia|]. destruct (i <? 62) eqn:E3; [lia|].
+  destruct (i =? 62) eqn:E4; reflexivity.
+Qed.
+
+Theorem encode_alphabet bs : Forall (fun c => url_char c = true) (encode bs).
+Proof.
+  induction bs as [|a|a b|a b c rest IH] using list_ind3; cbn [encode].
+  - constructor.
+  - repeat (constructor; [apply alpha_url_char|]). constructor.
+  - repeat (constructor; [apply alpha_url_char|]). constructor.
+  - repeat (constructor; [apply alpha_url_char|]). exact IH.
+Qed.
+
+Theorem encode_no_padding bs : ~ In 61 (encode bs).
+Proof.
+  intros H. pose proof (encode_alphabet bs) as F. rewrite Forall_forall in F. specialize (F _ H). discriminate F.
+Qed.
+
+Theorem encode_length bs : (3 * List.length (encode bs) = 4 * List.length bs + (3 - List.length bs mod 3) mod 3)%nat.
+Proof.
+  induction bs as [|a|a b|a b c rest IH] using list_ind3; cbn [encode List.length]; try reflexivity.
+  replace (S (S (S (List.length rest)))) with (List.length rest + 1 * 3)%nat by lia.
+  rewrite Nat.mod_add by lia. lia.
+Qed.
